@@ -158,6 +158,13 @@ def oracle(sc, r, want=("C07", "C08", "C09")):
     ops = ops_of(log)
     conns = server_view(log)
     faults_at = [i for i, e in enumerate(log) if e[1] == "S" and e[3] in ("FAULT", "IDLECLOSE")]
+    def _cmd_before(i):
+        c = log[i][2]
+        for j in range(i - 1, -1, -1):
+            if log[j][1] == "S" and log[j][2] == c and log[j][3] == "CMD":
+                return log[j][4][0]
+        return None
+    faults_not_probe = [i for i in faults_at if not (log[i][3] == "FAULT" and _cmd_before(i) == "NOOP")]
     shutdown_starts = [o["start"] for o in ops if o["op"]["op"] == "shutdown"]
     shutdown_ends = [o["end"] for o in ops if o["op"]["op"] == "shutdown"]
     first_shut_start = min(shutdown_starts) if shutdown_starts else None
@@ -261,7 +268,8 @@ def oracle(sc, r, want=("C07", "C08", "C09")):
                 else:
                     bad.append(("C07", "send returned an error although the server accepted and confirmed the message", "%s: %s" % (sid, res["err"])))
             # spurious failure: nothing went wrong at the server during this send and no shutdown was under way
-            disturbed = any(o["start"] < j < o["end"] for j in faults_at) or (first_shut_start is not None and first_shut_start < o["end"])
+            # (a fault that hits the pool's own liveness probe does not excuse the send: the pool must go on to another or a fresh connection)
+            disturbed = any(o["start"] < j < o["end"] for j in faults_not_probe) or (first_shut_start is not None and first_shut_start < o["end"])
             if not disturbed and not sc.get("expect_connect_fail"):
                 bad.append(("C08", "send failed although no command failed, the server dropped nothing and no shutdown was under way (the send after a failed one must succeed on a fresh connection)", "%s: %s" % (sid, res["err"])))
         else:
@@ -390,7 +398,8 @@ def base(rng, kind, pool, **kw):
 
 
 def send_op(name, rng):
-    return {"op": "send", "id": name, "nrcpt": rng.choice([1, 1, 2, 3]), "size": rng.choice([0, 0, 300, 5000, 70000]), "shape": rng.choice([0, 0, 0, 1, 2, 3])}
+    # (now and then a recipient list longer than the 100 an RFC 5321 server must accept: still one transaction)
+    return {"op": "send", "id": name, "nrcpt": rng.choice([1, 1, 2, 3] * 6 + [100, 101, 150]), "size": rng.choice([0, 0, 300, 5000, 70000]), "shape": rng.choice([0, 0, 0, 1, 2, 3])}
 
 
 def gen_concurrent(rng, kind, n):
@@ -399,6 +408,8 @@ def gen_concurrent(rng, kind, n):
     for k in range(n):
         mx = rng.randint(1, 3)
         pool = {"max": mx, "min_idle": rng.choice([0, 0, 1, 2, 3]), "idle_ms": 60000}
+        if k % 6 == 5:
+            pool["idle"] = "never"          # idle_timeout(Duration::MAX)
         sc = base(rng, kind, pool)
         ns = rng.randint(2, 4)
         for s in range(ns):
@@ -496,6 +507,26 @@ def gen_maintenance(rng, kind, n):
                            {"op": "wait_closed", "conns": "accepted-so-far", "ms": 4000, "why": "connections idle longer than idle_timeout are closed"},
                            {"op": "wait_idle", "n": target, "ms": 4000, "why": "topped up again after expiry"}, {"op": "debug"}]
         sc["family"] = "maintenance"
+        if mi > 0 and k % 3 == 0:
+            # the very first connection the worker opens is refused (554 greeting): the next passes must still do their work
+            sc["faults"] = [{"conn": 0, "cmd": "GREET", "nth": 0, "act": "e5"}]
+            sc["expect_connect_fail"] = True
+            sc["family"] = "maintenance-after-refusal"
+        out.append(sc)
+    return out
+
+
+def gen_silent_idle_peer(rng, kind, n):
+    """C08: a parked connection whose peer neither answers nor closes (dropped by a NAT): the probe times out, the pool goes on to a fresh
+    connection and the send succeeds."""
+    out = []
+    for k in range(n):
+        sc = base(rng, kind, {"max": 2, "min_idle": 0, "idle_ms": 60000}, probe_delay_us=0, reply_delay_us=0)
+        sc["timeout_ms"] = 300
+        sc["faults"] = [{"conn": None, "cmd": "NOOP", "nth": 0, "act": rng.choice(["stall", "stall_close"]), "ms": 1000}]
+        sc["senders"] = [[send_op("q0", rng), send_op("q1", rng), send_op("q2", rng)]]
+        sc["after"] = [{"op": "debug"}]
+        sc["family"] = "silent-idle-peer"
         out.append(sc)
     return out
 
